@@ -311,3 +311,21 @@ def eval_terms(tag, requires, prelude, terms, timeout=600):
         return None, out
     parts = re.findall(r"^\s*=\s*(.*?)\n\s*:\s", out, flags=re.S | re.M)
     return parts, out
+
+
+def coqchk(pid, timeout=3000):
+    """coqchk -o on Props/<pid>.vo (re-checks the file and its whole dependency cone with the independent checker).
+    -> dict(status: ok|failed|timeout, axioms: [...], seconds, tail)"""
+    t0 = time.time()
+    try:
+        p = subprocess.run(["timeout", str(timeout), "coqchk", "-silent", "-o", "-Q", ".", LOGICAL, f"{LOGICAL}.Props.{pid}"],
+                           cwd=COQ, stdout=subprocess.PIPE, stderr=subprocess.STDOUT, text=True)
+        out, rc = p.stdout, p.returncode
+    except Exception as e:  # pragma: no cover
+        out, rc = repr(e), 1
+    axioms = []
+    m = re.search(r"\* Axioms:(.*?)\n\s*\n\* ", out, flags=re.S)
+    if m:
+        axioms = [a.strip() for a in m.group(1).split("\n") if a.strip() and a.strip() != "<none>"]
+    status = "ok" if rc == 0 and "CONTEXT SUMMARY" in out else ("timeout" if rc == 124 else "failed")
+    return {"status": status, "axioms": axioms, "seconds": time.time() - t0, "tail": out[-1500:] if status != "ok" else ""}
